@@ -27,6 +27,8 @@ pub struct State {
     pub max_sp: usize,
     /// number of forced collections since the last reset
     pub forced_collections: u64,
+    /// number of collections (forced or natural) that marked and swept since the last reset
+    pub collections: u64,
     /// set while a forced collection is running (disables the utilisation test)
     pub forced: bool,
     /// asked at every instruction boundary whether to collect now
@@ -58,6 +60,7 @@ pub struct Stats {
     pub max_sp: usize,
     pub instr_count: u64,
     pub forced_collections: u64,
+    pub collections: u64,
 }
 
 impl Vm {
@@ -79,16 +82,21 @@ impl Vm {
 
     /// Run the production collector now, regardless of heap utilisation.
     pub fn verif_force_gc(&mut self) {
-        let mut observer = self.verif.observer.take();
-        if let Some(observer) = observer.as_mut() {
-            observer(self, GcPhase::Before);
-        }
         self.verif.forced = true;
         self.run_gc();
         self.verif.forced = false;
         self.verif.forced_collections += 1;
+    }
+
+    /// Called by run_gc around every collection that actually marks and sweeps,
+    /// forced or not.
+    pub(crate) fn verif_observe(&mut self, phase: GcPhase) {
+        if phase == GcPhase::After {
+            self.verif.collections += 1;
+        }
+        let mut observer = self.verif.observer.take();
         if let Some(observer) = observer.as_mut() {
-            observer(self, GcPhase::After);
+            observer(self, phase);
         }
         self.verif.observer = observer;
     }
@@ -105,6 +113,7 @@ impl Vm {
         self.verif.instr_count = 0;
         self.verif.max_sp = self.stack.get_sp();
         self.verif.forced_collections = 0;
+        self.verif.collections = 0;
     }
 
     pub fn verif_stats(&self) -> Stats {
@@ -120,6 +129,7 @@ impl Vm {
             max_sp: self.verif.max_sp,
             instr_count: self.verif.instr_count,
             forced_collections: self.verif.forced_collections,
+            collections: self.verif.collections,
         }
     }
 
